@@ -16,13 +16,29 @@ and writes lean/FairModel/Generated/ThresholderSrc.lean.  `Model/Threshold.lean`
 import ast
 
 from .. import translate
+from . import normalize
 from ..translate import Untranslatable
-from .threshold import _expr, _str_const
+from .threshold import _expr, _str_const, parse_top
 from .tradeoff import CMP, _body, _int, _name, _single_assigns, only_statements
 
 OPF = "fairlearn/postprocessing/_threshold_operation.py"
 ITF = "fairlearn/postprocessing/_interpolated_thresholder.py"
 TOF = "fairlearn/postprocessing/_threshold_optimizer.py"
+PINNED_OPF = {"ThresholdOperation.__init__": [], "ThresholdOperation.__call__": []}
+# the arithmetic terms this lifter emits for the pinned source (see tradeoff.PINNED_TERMS)
+PINNED_TERMS = ["((0 : Rat) * s)", "((p0 * o0) + (p1 * o1))", "((pi * c) + (((1 : Rat) - pi) * v))"]
+FLIP = {ast.LtE: ast.GtE, ast.Lt: ast.Gt, ast.GtE: ast.LtE, ast.Gt: ast.Lt}
+
+
+def _pin(term):
+    return normalize.lean_prefer(term, PINNED_TERMS)
+
+
+PINNED_ITF = {
+    "InterpolatedThresholder._pmf_predict": ["base_predictions", "_", "base_predictions_vector", "sensitive_feature_vector",
+                                             "positive_probs", "a", "interpolation", "interpolated_predictions"],
+    "InterpolatedThresholder.predict": ["positive_probs"],
+}
 
 
 def U(msg):
@@ -58,12 +74,13 @@ def _operation(tree):
     if len(op_attr) != 1 or len(th_attr) != 1:
         raise U("ThresholdOperation.__init__ does not store operator / threshold once each")
     call = _method(tree, "ThresholdOperation", "__call__")
-    only_statements("ThresholdOperation.__call__", _body(call), If=2, Return=2, Raise=1)
+    call_body = normalize.fold_early_exits(_body(call))       # `if ..: return` sequences as the if / elif / else chain
+    only_statements("ThresholdOperation.__call__", call_body, If=2, Return=2, Raise=1)
     if [a.arg for a in call.args.args][0] != "self" or len(call.args.args) != 2:
         raise U("ThresholdOperation.__call__ signature changed")
     y = call.args.args[1].arg
     out = {}
-    node = _body(call)
+    node = call_body
     if len(node) != 1 or not isinstance(node[0], ast.If):
         raise U("ThresholdOperation.__call__ is not a single if / elif chain")
     cur = node[0]
@@ -81,7 +98,7 @@ def _operation(tree):
         if isinstance(l, ast.Name) and l.id == y and _self_attr(r, th_attr[0]):
             expr = f"decide (s {CMP[type(c.ops[0])]} t)"
         elif isinstance(r, ast.Name) and r.id == y and _self_attr(l, th_attr[0]):
-            expr = f"decide (t {CMP[type(c.ops[0])]} s)"
+            expr = f"decide (s {CMP[FLIP[type(c.ops[0])]]} t)"        # `t < s` is `s > t`: the score goes on the left
         else:
             raise U("ThresholdOperation.__call__: comparison is not between y_hat and self._threshold")
         if sym in out:
@@ -119,9 +136,12 @@ def _pmf(tree):
     if not (isinstance(kw.get("sensitive_features"), ast.Name) and kw["sensitive_features"].id == "sensitive_features"):
         raise U("_pmf_predict: sensitive_features is not forwarded")
     yv = kw.get("y")
-    if not (isinstance(yv, ast.Name) and yv.id in assigns):
+    if isinstance(yv, ast.Name) and yv.id in assigns:
+        src = assigns[yv.id]
+    elif isinstance(yv, ast.Call):
+        src = yv                # the local inlined into the call
+    else:
         raise U("_pmf_predict: y= is not the local array of base predictions")
-    src = assigns[yv.id]
     if "_get_soft_predictions" not in ast.unparse(src):
         raise U("_pmf_predict: base predictions do not come from _get_soft_predictions")
     # positive_probs = C * scores
@@ -155,7 +175,7 @@ def _pmf(tree):
         if isinstance(node, (ast.Name, ast.Call)):
             raise U(f"_pmf_predict: unknown term {ast.unparse(node)[:50]} in the interpolation expression")
         return None
-    interp = _expr(s_int.value, atom_interp)
+    interp = _pin(_expr(s_int.value, atom_interp))
     # if "p_ignore" in interpolation:
     t = s_if.test if isinstance(s_if, ast.If) else None
     if not (t is not None and isinstance(t, ast.Compare) and len(t.ops) == 1 and isinstance(t.ops[0], ast.In)
@@ -181,7 +201,7 @@ def _pmf(tree):
         if isinstance(node, ast.Call):
             raise U("_pmf_predict: call in the p_ignore expression")
         return None
-    ign = _expr(s_ign.value, atom_ign)
+    ign = _pin(_expr(s_ign.value, atom_ign))
     # positive_probs[sf == a] = interpolated_predictions[sf == a]
     def mask(node, base):
         if isinstance(node, ast.Subscript) and isinstance(node.value, ast.Name) and node.value.id == base:
@@ -207,7 +227,7 @@ def _pmf(tree):
         return None
     if init is None:
         raise U("_pmf_predict: start value of positive_probs not found")
-    init_e = _expr(init, atom_init)
+    init_e = _pin(_expr(init, atom_init))
     # return np.array([1.0 - positive_probs, positive_probs]).transpose()
     rv = rets[0].value
     if not (isinstance(rv, ast.Call) and isinstance(rv.func, ast.Attribute) and rv.func.attr == "transpose" and not rv.args
@@ -235,7 +255,11 @@ def _predict(tree):
         raise U("predict: not exactly one return")
     rv = rets[0].value
     # (positive_probs >= random_state.rand(len(positive_probs))) * 1
-    if not (isinstance(rv, ast.BinOp) and isinstance(rv.op, ast.Mult) and isinstance(rv.right, ast.Constant) and rv.right.value == 1
+    if isinstance(rv, ast.BinOp) and isinstance(rv.op, ast.Mult) and isinstance(rv.left, ast.Constant) \
+            and isinstance(rv.right, ast.Compare):
+        rv = ast.BinOp(left=rv.right, op=rv.op, right=rv.left)        # `1 * (...)` is `(...) * 1`
+    if not (isinstance(rv, ast.BinOp) and isinstance(rv.op, ast.Mult) and isinstance(rv.right, ast.Constant)
+            and rv.right.value == 1 and not isinstance(rv.right.value, bool)
             and isinstance(rv.left, ast.Compare) and len(rv.left.ops) == 1 and type(rv.left.ops[0]) in CMP):
         raise U("predict: return value is not `(<probs> <cmp> <draws>) * 1`")
     c = rv.left
@@ -247,7 +271,7 @@ def _predict(tree):
     if isinstance(l, ast.Name) and is_rand(r):
         probs, rnd, expr = l.id, r, f"decide (p {CMP[type(c.ops[0])]} u)"
     elif isinstance(r, ast.Name) and is_rand(l):
-        probs, rnd, expr = r.id, l, f"decide (u {CMP[type(c.ops[0])]} p)"
+        probs, rnd, expr = r.id, l, f"decide (p {CMP[FLIP[type(c.ops[0])]]} u)"       # `u <= p` is `p >= u`
     else:
         raise U("predict: comparison is not between the probabilities and random_state.rand(...)")
     a = rnd.args[0]
@@ -295,11 +319,13 @@ def _delegation(tree):
 
 @translate.lifter
 def lift_thresholder(repo):
-    ops = _operation(ast.parse(translate._read(repo, OPF)))
-    it = ast.parse(translate._read(repo, ITF))
+    ops = _operation(normalize.canon_tree(normalize.parse(translate._read(repo, OPF)), PINNED_OPF))
+    it = normalize.canon_tree(normalize.parse(translate._read(repo, ITF)), PINNED_ITF,
+                              extra_funcs=("_get_soft_predictions", "check_random_state"),
+                              extra_methods=("operation0", "operation1"))
     pm = _pmf(it)
     pr = _predict(it)
-    _delegation(ast.parse(translate._read(repo, TOF)))
+    _delegation(parse_top(repo))
     L = ["/-\nGENERATED by harness/lifters/thresholder.py from\n  " + "\n  ".join([OPF, ITF, TOF]) +
          "\nDo not edit: rewritten on every run from the tree under check.\n-/\nset_option linter.unusedVariables false\n",
          "namespace ThresholderSrc\n"]
